@@ -688,7 +688,6 @@ func (w *World) dominatedByNonNegTest(b *ssa.BasicBlock, v ssa.Value) bool {
 	return false
 }
 
-
 // ruleC03R10: the quoting helpers with a documented domain (token.QuoteSQLIdent reads s[0]: names are non-empty) are
 // called by the parser and the lexer only with the spelling of an identifier token — the one kind of token whose
 // AsString the lexer never leaves empty. An error message that quotes "the current token" at a place where that token
@@ -784,7 +783,6 @@ func ruleC03R10(w *World, r *Report) {
 		r.trivial(rule, "calls of the quoting helpers outside package ast", "-", "none")
 	}
 }
-
 
 // ruleC03R11: the string-taking entry points (memefish.ParseStatement(filepath, s), …) hand back exactly what the
 // Parser method returned. A pre-check that returns early (a nesting limit, a size limit) with a nil node and an error
